@@ -98,6 +98,13 @@ class Check:
                 self.anchor_error = str(e)
             return None
 
+    def unresolved(self, rule, key, msg, where=""):
+        """The construct at *key* could not be evaluated: neither held nor violated.  The run ends in ANALYSIS-ERROR unless
+        some rule found a concrete violation."""
+        rule = self.rule_map.get(rule, rule)
+        if not self.anchor_error:
+            self.anchor_error = f"{rule} {key}: {msg}" + (f" ({where})" if where else "")
+
     def assume(self, text):
         if text not in self.assumptions:
             self.assumptions.append(text)
